@@ -209,7 +209,7 @@ def main(mod):
             for r in pool.imap_unordered(_worker, jobs, chunksize=1):
                 results.append(r)
                 if r['err'] or r['cex']:
-                    print('[%s] job %s: %s' % (pid, r['name'], (r['err'] or '%d counterexample(s)' % len(r['cex']))[:2000]), flush=True)
+                    print('[%s] job %s: %s' % (pid, r['name'], (r['err'] or '%d counterexample(s)' % len(r['cex']))[-1500:]), flush=True)
     # ---- aggregate
     stats = Counter()
     solver_time = 0.0
@@ -286,7 +286,7 @@ def main(mod):
         sys.exit(1)
     if incon:
         for r in incon[:5]:
-            print('[%s] INCONCLUSIVE job %s: %s' % (pid, r['name'], r['err'][:3000]))
+            print('[%s] INCONCLUSIVE job %s: %s' % (pid, r['name'], r['err'][-3000:]))
         sys.exit(3)
     print('[%s] PASS: property held on everything explored within the bounds' % pid)
     sys.exit(0)
